@@ -5,6 +5,10 @@
 //
 // Case lines:   g;hh hh hh ...    Graph6Decode of the bytes hh (hex)
 //               s;hh hh hh ...    Sparse6Decode
+//               q;g=hhhh s=hhhh ...   a sequence of decoder calls in ONE process whose results are
+//                                 all held until the end and dumped only then (a result must not
+//                                 change because of a later call; a call must not depend on an
+//                                 earlier one); observation = the per-call observations joined by |
 //
 // Sparse6Decode allocates n neighbour lists before it looks at the stream, so strings that
 // declare n > 4096 (the resource bound of the property) are not run: "skipped" on both sides.
@@ -104,6 +108,9 @@ func exec(line string) hx.Result {
 		return hx.Result{Obs: "badcase"}
 	}
 	kind := line[0]
+	if kind == 'q' {
+		return execSeq(strings.Fields(line[i+1:]))
+	}
 	s := codecobs.UnHex(line[i+1:])
 	str := string(s)
 	fail := func(key, f string, a ...interface{}) { res.Viol = append(res.Viol, hx.Fail(key, f, a...)) }
@@ -138,6 +145,9 @@ func exec(line string) hx.Result {
 	case err != nil:
 		res.Obs = "err"
 		res.Nontrivial = true
+		if w := specAgrees(kind, s, ""); w != "" {
+			fail("C08:format:"+name, "%s", w)
+		}
 	default:
 		d := codecobs.Descr(g)
 		if !declOK || g.N() != decl {
@@ -145,6 +155,9 @@ func exec(line string) hx.Result {
 		}
 		if w := wellFormed(g); w != "" {
 			fail("C08:wf:"+name, "the decoded graph is not well formed: %s", w)
+		}
+		if w := specAgrees(kind, s, d); w != "" {
+			fail("C08:format:"+name, "%s", w)
 		}
 		// re-encode and decode again
 		re := "panic"
@@ -192,12 +205,166 @@ func exec(line string) hx.Result {
 			body = strings.TrimPrefix(body, ">>sparse6<<")
 		}
 		res.Nontrivial = enc != body // not the canonical encoding of what it denotes
+		if w := postEdit(g, d); w != "" {
+			fail("C08:post-edit:"+name, "%s", w)
+		}
 	}
 	out := res.Obs
 	if j := strings.IndexAny(out, ":;"); j > 0 {
 		out = out[:j]
 	}
 	res.Buckets = append(res.Buckets, name+"/"+out)
+	return res
+}
+
+
+// stripHdr removes the optional header of the decoder kind.
+func stripHdr(kind byte, s []byte) []byte {
+	h := ">>graph6<<"
+	if kind == 's' {
+		h = ">>sparse6<<"
+	}
+	if strings.HasPrefix(string(s), h) {
+		return s[len(h):]
+	}
+	return s
+}
+
+// specAgrees compares the outcome with an independent reading of the string by the format text
+// (codecobs): dump == "" means the decoder returned an error.  Loops and repeated edges of a
+// sparse6 string are dropped (a SparseGraph cannot hold them); the empty graph6 string is the
+// documented exception.
+func specAgrees(kind byte, s []byte, dump string) string {
+	b := stripHdr(kind, s)
+	var n int
+	var es []edge
+	var ok bool
+	if kind == 'g' {
+		if len(b) == 0 {
+			return ""
+		}
+		if dn, dok := graphDeclared(s); dok && dn > 6000 {
+			return "" // the transcription would allocate n^2/2 entries; the length test decides anyway
+		}
+		n, es, ok = codecobs.SpecGraph6(b)
+	} else {
+		n, es, ok = codecobs.SpecSparse6(b)
+	}
+	if !ok {
+		if dump != "" {
+			return fmt.Sprintf("the format text rejects %q, the decoder returned %s", string(s), dump)
+		}
+		return ""
+	}
+	want := codecobs.DescrOf(n, es)
+	if dump == "" {
+		return fmt.Sprintf("by the format text %q denotes %s, the decoder returned an error", string(s), want)
+	}
+	if dump != want {
+		return fmt.Sprintf("by the format text %q denotes %s, the decoder returned %s", string(s), want, dump)
+	}
+	return ""
+}
+
+// postEdit uses the returned graph the way a caller may: it is an EditableGraph of its own, so
+// adding and removing a vertex and an edge must bring back the same graph (storage shared
+// between the lists of the result, or with another result, shows here).
+func postEdit(g graph.Graph, dump string) string {
+	eg, ok := g.(graph.EditableGraph)
+	n := g.N()
+	if !ok || n > 70 {
+		return ""
+	}
+	msg := ""
+	if !codecobs.Call(func() {
+		var nb []int
+		for v := 0; v < n; v += 2 {
+			nb = append(nb, v)
+		}
+		eg.AddVertex(nb)
+		for v := 0; v+1 < n; v++ {
+			if !eg.IsEdge(v, v+1) {
+				eg.AddEdge(v, v+1)
+				if d := codecobs.Descr(eg); !strings.Contains(d, fmt.Sprintf("%d-%d", v+1, v)) {
+					msg = fmt.Sprintf("after AddEdge(%d,%d) on the decoded graph the edge is missing: %s", v, v+1, d)
+				}
+				eg.RemoveEdge(v, v+1)
+			}
+		}
+		eg.RemoveVertex(n)
+		if d := codecobs.Descr(eg); d != dump && msg == "" {
+			msg = fmt.Sprintf("after AddVertex/AddEdge/RemoveEdge/RemoveVertex the decoded graph is %s, was %s", d, dump)
+		}
+	}) {
+		return "editing the decoded graph panicked"
+	}
+	return msg
+}
+
+// decodeOnce runs one decoder call; skipped = a sparse6 string declaring more than maxDeclared.
+func decodeOnce(kind byte, s []byte) (g graph.Graph, outcome string) {
+	str := string(s)
+	var err error
+	var ok bool
+	if kind == 'g' {
+		var dg *graph.DenseGraph
+		ok = codecobs.Call(func() { dg, err = graph.Graph6Decode(str) })
+		g = dg
+	} else {
+		if n, dok := sparseDeclared(s); dok && n > maxDeclared {
+			return nil, "skipped"
+		}
+		var sg *graph.SparseGraph
+		ok = codecobs.Call(func() { sg, err = graph.Sparse6Decode(str) })
+		g = sg
+	}
+	switch {
+	case !ok:
+		return nil, "panic"
+	case err != nil:
+		return nil, "err"
+	}
+	return g, "ok"
+}
+
+// execSeq: the calls of a q case in order, every result held; the dumps are taken at the end and
+// compared with the dumps taken right after each call.
+func execSeq(toks []string) hx.Result {
+	var res hx.Result
+	res.Nontrivial = len(toks) > 1
+	type held struct {
+		g       graph.Graph
+		outcome string
+		early   string
+	}
+	hs := make([]held, len(toks))
+	for i, t := range toks {
+		if len(t) < 2 || t[1] != '=' {
+			return hx.Result{Obs: "badcase"}
+		}
+		g, oc := decodeOnce(t[0], codecobs.UnHex(t[2:]))
+		hs[i] = held{g: g, outcome: oc}
+		if oc == "ok" {
+			hs[i].early = codecobs.Descr(g)
+		}
+		if oc == "panic" {
+			res.Viol = append(res.Viol, hx.Fail("C08:panic:seq", "call %d of the sequence (%s) panicked", i, t))
+		}
+	}
+	parts := make([]string, len(toks))
+	for i, h := range hs {
+		parts[i] = h.outcome
+		if h.outcome == "ok" {
+			late := "panic"
+			codecobs.Call(func() { late = codecobs.Descr(h.g) })
+			parts[i] = "ok:" + late
+			if late != h.early {
+				res.Viol = append(res.Viol, hx.Fail("C08:aliasing:seq", "the graph returned by call %d (%s) was %s and is %s after the later calls", i, toks[i], h.early, late))
+			}
+		}
+	}
+	res.Obs = strings.Join(parts, "|")
+	res.Buckets = []string{fmt.Sprintf("sequence/%d calls", len(toks))}
 	return res
 }
 
@@ -213,6 +380,91 @@ func randEdges(r *hx.Rng, n, num, den int) []edge {
 		}
 	}
 	return es
+}
+
+
+func bytesOf(c byte, l int) []byte {
+	b := make([]byte, l)
+	for i := range b {
+		b[i] = c
+	}
+	return b
+}
+
+func dedup(n int, es []edge) []edge {
+	seen := map[edge]bool{}
+	var out []edge
+	for _, e := range es {
+		if e.U < e.V && e.V < n && !seen[e] {
+			seen[e] = true
+			out = append(out, e)
+		}
+	}
+	codecobs.SortEdges(out)
+	return out
+}
+
+// foreignSparse6 writes (n, es) as a sparse6 string in a legal way the library's own encoder
+// never uses.
+func foreignSparse6(r *hx.Rng, n int, es []edge) []byte {
+	k := codecobs.BitsFor(n)
+	rows := map[int][]int{}
+	var order []int
+	for _, e := range es {
+		if len(rows[e.V]) == 0 {
+			order = append(order, e.V)
+		}
+		rows[e.V] = append(rows[e.V], e.U)
+	}
+	style := r.Intn(4)
+	var bits []byte
+	v := 0
+	for _, i := range order {
+		us := rows[i]
+		if style == 1 || (style == 3 && r.Bool()) { // descending order inside the row
+			for a, b := 0, len(us)-1; a < b; a, b = a+1, b-1 {
+				us[a], us[b] = us[b], us[a]
+			}
+		}
+		if i != v {
+			switch {
+			case i == v+1 && style != 2 && r.Bool():
+				// the usual b = 1 move is folded into the first edge below
+			default:
+				// move by x > v (also to the next vertex), with b = 0 or, two or more ahead, b = 1
+				if i >= v+2 && r.Bool() {
+					bits = codecobs.PairBits(bits, 1, i, k)
+				} else {
+					bits = codecobs.PairBits(bits, 0, i, k)
+				}
+				v = i
+			}
+		}
+		for j, u := range us {
+			if i == v+1 && j == 0 {
+				bits = codecobs.PairBits(bits, 1, u, k)
+				v = i
+			} else {
+				bits = codecobs.PairBits(bits, 0, u, k)
+			}
+			if style == 3 && r.Chance(1, 4) {
+				bits = codecobs.PairBits(bits, 0, u, k) // the edge again
+			}
+			if style == 3 && r.Chance(1, 6) {
+				bits = codecobs.PairBits(bits, 0, v, k) // a loop
+			}
+		}
+	}
+	// padding: 1 bits by the rule; 0 bits are read as nothing when fewer than k+1 of them remain
+	pad := byte(1)
+	if rem := (6 - len(bits)%6) % 6; rem > 0 {
+		if rem < k+1 && r.Bool() {
+			pad = 0
+		} else if (n == 2 || n == 4 || n == 8 || n == 16) && v == n-2 && rem >= k+1 {
+			bits = append(bits, 0)
+		}
+	}
+	return append(append([]byte{':'}, codecobs.EncN(n, 0)...), codecobs.PackBits(bits, pad)...)
 }
 
 func gen(g *hx.Gen) {
@@ -292,7 +544,7 @@ func gen(g *hx.Gen) {
 		}
 		// one-byte corruptions
 		for _, p := range ps {
-			for _, c := range []byte{0x00, 62, 63, 126, 127, enc[p] ^ (1 << uint(r.Intn(6))), byte(r.Intn(256))} {
+			for _, c := range []byte{0x00, 62, 63, 126, 127, enc[p] ^ (1 << uint(r.Intn(6))), byte(r.Intn(256)), enc[p] + 64, enc[p] + 128, enc[p] ^ 0x80, 0x80, 0xff} {
 				if c == enc[p] {
 					continue
 				}
@@ -409,6 +661,157 @@ func gen(g *hx.Gen) {
 		s = append(s, codecobs.PackBits(bits, byte(r.Intn(2)))...)
 		emit('s', s)
 	}
+	// ---- hardening pass (notes/C08.md, "Hardening pass: dimensions")
+	hexOf := func(b []byte) string { return codecobs.Hex(b) }
+	var pool [][2]string // (kind, hex) of strings emitted below, reused by the sequences
+	keep := func(kind byte, b []byte) {
+		emit(kind, b)
+		if kind == 's' {
+			if n, ok := sparseDeclared(b); ok && n > maxDeclared {
+				return
+			}
+		}
+		if len(b) <= 400 {
+			pool = append(pool, [2]string{string(kind), hexOf(b)})
+		}
+	}
+	// (1) sizes across thresholds: declared n and string lengths just below / at / above powers
+	// of two; sparse6 pair width k changes at every power of two
+	sizes := []int{7, 8, 9, 15, 16, 17, 31, 32, 33, 63, 64, 65, 127, 128, 129, 255, 256, 257, 511, 512, 513, 1023, 1024, 1025, 2047, 2048, 4095, 4096}
+	for _, n := range sizes {
+		k := codecobs.BitsFor(n)
+		for c := 0; c < g.Pick(2, 10); c++ {
+			// a valid edge list with few edges (written by the independent encoder) and its corruptions
+			var es []edge
+			for e := 0; e < r.Range(1, 8); e++ {
+				v := r.Range(1, n-1)
+				if r.Chance(1, 3) {
+					v = n - 1 - r.Intn(2)
+				}
+				es = append(es, edge{V: v, U: r.Intn(v)})
+			}
+			es = dedup(n, es)
+			enc := codecobs.SpecSparse6Encode(n, es, 0)
+			keep('s', enc)
+			keep('s', enc[:len(enc)-1])
+			m := append([]byte(nil), enc...)
+			m[len(m)-1] ^= byte(1 << uint(r.Intn(6)))
+			keep('s', m)
+			// arbitrary pairs at that width, string length aimed at a threshold
+			target := []int{7, 8, 9, 15, 16, 17, 31, 32, 33, 63, 64, 65, 127, 128, 129, 255, 256, 257}[r.Intn(18)]
+			if !g.Thorough() && target > 129 && c > 0 {
+				target = 33
+			}
+			var bits []byte
+			for len(bits) < 6*target-k {
+				x := r.Intn(1 << uint(k))
+				if r.Chance(1, 2) {
+					x = r.Intn(n)
+				}
+				bits = codecobs.PairBits(bits, byte(r.Intn(3)/2), x, k)
+			}
+			keep('s', append(append([]byte{':'}, codecobs.EncN(n, 0)...), codecobs.PackBits(bits, byte(r.Intn(2)))...))
+		}
+		// graph6 at that size (the string has n(n-1)/12 bytes: up to n = 129 in quick, 257 in thorough)
+		if n <= g.Pick(129, 257) {
+			var es []edge
+			for e := 0; e < r.Range(1, 8); e++ {
+				v := r.Range(1, n-1)
+				es = append(es, edge{V: v, U: r.Intn(v)})
+			}
+			es = append(es, edge{V: n - 1, U: n - 2})
+			es = dedup(n, es)
+			enc := codecobs.SpecGraph6Encode(n, es, 0)
+			emit('g', enc)
+			emit('g', enc[:len(enc)-1])
+			m := append([]byte(nil), enc...)
+			m[len(m)-1] ^= 2
+			emit('g', m)
+			m = append([]byte(nil), enc...)
+			m[len(m)/2] ^= 0x80
+			emit('g', m)
+		}
+	}
+	// (2),(10) asymmetric sizes and extreme internal state: a tiny declared n in front of a long
+	// stream (k = 0: every bit is a pair), the vertex pointer run far past n (hundreds of b = 1
+	// pairs), all-ones / all-zeros / alternating streams, walks of the pointer across n-2, n-1, n
+	for _, n := range []int{0, 1, 2, 3, 4, 5, 8, 16, 17, 31, 32, 33, 64, 100, 200, 255, 256, 257, 300} {
+		k := codecobs.BitsFor(n)
+		hdr := append([]byte{':'}, codecobs.EncN(n, 0)...)
+		for _, l := range []int{1, 5, 43, 44, 86, 171, 172, 300} {
+			if !g.Thorough() && l > 172 && n > 5 {
+				continue
+			}
+			for _, fill := range []byte{63, 126, 63 + 21, 63 + 42, 63 + 32} {
+				if !g.Thorough() && fill != 126 && (l+n)%3 != 0 {
+					continue
+				}
+				keep('s', append(append([]byte(nil), hdr...), bytesOf(fill, l)...))
+			}
+		}
+		// many pairs (1, x): the pointer climbs one by one far beyond n; then small x again
+		for _, cnt := range []int{n + 2, 255, 256, 257, 300} {
+			if cnt*(k+1) > 6*420 {
+				continue
+			}
+			var bits []byte
+			for c := 0; c < cnt; c++ {
+				bits = codecobs.PairBits(bits, 1, 0, k)
+			}
+			bits = codecobs.PairBits(bits, 0, 0, k)
+			if n > 1 {
+				bits = codecobs.PairBits(bits, 0, n-1, k)
+			}
+			keep('s', append(append([]byte(nil), hdr...), codecobs.PackBits(bits, 1)...))
+		}
+		// the pointer walks across n-2, n-1, n with every interesting x
+		if n >= 2 {
+			xs := []int{0, 1, n - 2, n - 1, n, (1 << uint(k)) - 1}
+			for c := 0; c < g.Pick(3, 12); c++ {
+				var bits []byte
+				bits = codecobs.PairBits(bits, 0, n-2-r.Intn(2)*r.Intn(n-1), k)
+				for p := 0; p < r.Range(2, 7); p++ {
+					x := xs[r.Intn(len(xs))]
+					if x < 0 || x >= 1<<uint(k) {
+						x = 0
+					}
+					bits = codecobs.PairBits(bits, byte(r.Intn(2)), x, k)
+				}
+				keep('s', append(append([]byte(nil), hdr...), codecobs.PackBits(bits, byte(r.Intn(2)))...))
+			}
+		}
+	}
+	// (12) foreign but valid sparse6 strings: other legal ways of writing the same graph (pointer
+	// moved by x > v also to the next vertex, edges of a row in descending order, every row
+	// announced by a jump, repeated edges and loops, padding with 0 bits where that is harmless)
+	for i := 0; i < g.Pick(250, 5000); i++ {
+		n := r.Range(2, 40)
+		if i%5 == 0 {
+			n = []int{4, 8, 16, 32, 64, 65, 128, 129}[r.Intn(8)]
+		}
+		d := dens[1+r.Intn(3)]
+		if n > 40 {
+			d = dens[1]
+		}
+		es := randEdges(r, n, d[0], d[1])
+		keep('s', foreignSparse6(r, n, es))
+	}
+	// (6),(8) sequences in one process: results held across later calls (sizes going down and up,
+	// errors in between, the same string twice)
+	if len(pool) > 0 {
+		for i := 0; i < g.Pick(400, 6000); i++ {
+			cnt := r.Range(2, 6)
+			toks := make([]string, 0, cnt+1)
+			for c := 0; c < cnt; c++ {
+				p := pool[r.Intn(len(pool))]
+				toks = append(toks, p[0]+"="+p[1])
+			}
+			if r.Chance(1, 3) {
+				toks = append(toks, toks[0])
+			}
+			g.Emit("q;" + strings.Join(toks, " "))
+		}
+	}
 	// random bytes
 	for i := 0; i < g.Pick(1500, 40000); i++ {
 		l := r.Range(0, 14)
@@ -442,7 +845,7 @@ func gen(g *hx.Gen) {
 
 func main() {
 	hx.Main(hx.Prop{
-		Rule:        "case = (decoder, byte string); non-trivial = the string is not the encoding the library itself produces for what it decodes to (errors and panics count); distinct by case text; buckets per decoder and outcome",
+		Rule:        "case = (decoder, byte string) or a sequence of such calls in one process; non-trivial = the string is not the encoding the library itself produces for what it decodes to (errors and panics count); distinct by case text; buckets per decoder and outcome",
 		Gen:         gen,
 		Exec:        exec,
 		CaseTimeout: 10 * time.Second,
